@@ -462,9 +462,11 @@ func (c *client) executeReadLoop(cborReader *cbor.Decoder) {
 		c.wg.Done()
 	}()
 	// Loop and get all messages
-	// The message is generic, so we must find the type and decode the full message next.
-	var runtimeMessage DecodedRuntimeMessage
 	for {
+		// The message is generic, so we must find the type and decode the full message next.
+		// A fresh value is needed for every message: decoding into a reused value would keep the fields of the
+		// previous message for every field the new message does not carry.
+		var runtimeMessage DecodedRuntimeMessage
 		if err := cborReader.Decode(&runtimeMessage); err != nil {
 			c.logger.Errorf(
 				"ATP client for steps '%s' failed to read or decode runtime message: %v",
